@@ -48,9 +48,13 @@ type Cfg struct {
 	SigSchemes      []tls.SignatureScheme
 	MultiCert       []string // server: several static certificates (credential names, first = default); overrides Cred/Cert
 	GetCertSNI      string   // server: WithGetCertificate callback that returns this credential for any non-empty server name
-	Extra           []dtls.Option
-	ExtraServer     []dtls.ServerOption
-	ExtraClient     []dtls.ClientOption
+	// GetCertSwitch: server: WithGetCertificate callback that returns the first credential on its first call of a
+	// connection (the library's probe before the handshake) and the second one on every later call (a
+	// certificate store that was rotated in between)
+	GetCertSwitch [2]string
+	Extra         []dtls.Option
+	ExtraServer   []dtls.ServerOption
+	ExtraClient   []dtls.ClientOption
 }
 
 // Endpoint is one real dtls.Conn plus everything the harness observes about it.
@@ -507,6 +511,17 @@ func (w *World) NewEndpoint(p *PKI, isClient bool, addr, peer Addr, cfg Cfg) (*E
 					return byName, nil
 				}
 				return nil, nil
+			}))
+		}
+		if cfg.GetCertSwitch[0] != "" {
+			first, later := CertFor(p, cfg.GetCertSwitch[0], false), CertFor(p, cfg.GetCertSwitch[1], false)
+			calls := 0
+			so = append(so, dtls.WithGetCertificate(func(*dtls.ClientHelloInfo) (*tls.Certificate, error) {
+				calls++
+				if calls == 1 {
+					return first, nil
+				}
+				return later, nil
 			}))
 		}
 		so = append(so, cfg.ExtraServer...)
